@@ -33,6 +33,12 @@ LongNames == IF Long THEN {Rep(66, n) : n \in {252, 253, 254, 255}} ELSE {}
 SeqsUpTo(S, lo, hi) == UNION {[1..n -> S] : n \in lo..hi}
 
 FldS == {[id |-> 101, data |-> <<>>], [id |-> 102, data |-> <<7>>], [id |-> 65535, data |-> <<0, 255, 1>>]}
+(* every combination of the boundary header values (the statement quantifies over ANY type / flags / id / error
+   code): ID 0 on a request, on a reply, all-ones, ... *)
+HeaderGrid == {[flags |-> f, isReply |-> r, type |-> t, id |-> i, err |-> e]
+                 : f \in {0, 1}, r \in {0, 1}, t \in {0, 65535}, i \in {Zeros(4), <<0, 0, 0, 1>>, Rep(255, 4)},
+                   e \in {Zeros(4), <<0, 0, 0, 1>>, Rep(255, 4)}}
+GridFields == {<<>>, <<[id |-> 102, data |-> <<7>>]>>, <<[id |-> 101, data |-> <<>>], [id |-> 65535, data |-> <<0, 255, 1>>]>>}
 Headers == {[flags |-> 0, isReply |-> 0, type |-> 107, id |-> <<0, 0, 0, 1>>, err |-> Z4],
             [flags |-> 0, isReply |-> 1, type |-> 0, id |-> F4, err |-> <<0, 0, 0, 1>>],
             [flags |-> 255, isReply |-> 1, type |-> 65535, id |-> <<1, 2, 3, 4>>, err |-> F4]}
@@ -77,6 +83,7 @@ Widths == {2, 4}    \* User.Icon / User.Flags are accepted as 2 bytes or as a 4-
 NObjects(k) ==
   CASE k = "field" -> {[id |-> i, data |-> d] : i \in {0, 101, 65535}, d \in DataS}
     [] k = "txn" -> {h @@ [fields |-> fs] : h \in Headers, fs \in SeqsUpTo(FldS, 0, 3)}
+                    \cup {h @@ [fields |-> fs] : h \in HeaderGrid, fs \in GridFields}
     [] k = "user" -> {[id |-> i, icon |-> c, flags |-> f, name |-> n, iconw |-> cw, flagsw |-> fw]
                         : i \in {0, 1, 65535}, c \in {0, 414}, f \in {0, 3}, n \in NameS, cw \in Widths, fw \in Widths}
     [] k = "account" -> {[login |-> l, name |-> n, access |-> a, haspw |-> p]
@@ -103,6 +110,13 @@ NObjects(k) ==
     [] k = "int" -> {[data |-> d] : d \in {<<>>, <<1>>, <<0, 0>>, <<1, 2>>, <<255, 255>>, <<1, 2, 3>>, Z4, <<127, 255, 255, 255>>, F4, <<1, 2, 3, 4, 5>>}}
     [] k = "filepath" -> {[segs |-> s] : s \in SeqsUpTo(NameS, 0, 3) \cup {<<n>> : n \in LongNames} \cup {<<<<65>>, n>> : n \in LongNames}}
     [] k = "newspath" -> {[segs |-> s] : s \in SeqsUpTo(NameS, 0, 2) \cup {<<n>> : n \in LongNames}}
+    [] k = "listing" -> {[servers |-> sv] : sv \in SeqsUpTo({[ip |-> <<10, 0, 0, 1>>, port |-> 5500, users |-> 0, name |-> <<>>, desc |-> <<>>],
+                                                                  [ip |-> <<127, 0, 0, 1>>, port |-> 65535, users |-> 300, name |-> <<83>>, desc |-> <<68, 0>>],
+                                                                  [ip |-> Rep(255, 4), port |-> 0, users |-> 65535, name |-> <<0, 255>>, desc |-> <<>>]}, 1, 2)}
+    [] k = "flatfile" -> {[forks |-> f, info |-> i, data |-> d, rsrc |-> r]
+                            : f \in {2, 3}, i \in {x \in InfoThin : x.name # <<>> /\ x.comment # <<99>>}, d \in {<<>>, <<1, 2, 3>>},
+                              r \in {<<>>, <<9, 8, 7>>}}
+    [] k = "obfstr" -> {[data |-> d] : d \in DataS}
     [] k = "serverrecord" -> {[ip |-> <<10, 0, 0, 1>>, port |-> p, users |-> u, name |-> n, desc |-> d]
                                 : p \in {5500, 65535}, u \in {0, 300}, n \in NameS, d \in {<<>>, <<68>>}}
 
